@@ -10,5 +10,8 @@ import FastQr.Props.C08
 import FastQr.Props.C09
 import FastQr.Props.C10
 import FastQr.Props.C11
+import FastQr.Props.C12
 import FastQr.Props.C15
 import FastQr.Props.C16
+import FastQr.Props.C17
+import FastQr.Props.C18
